@@ -346,6 +346,8 @@ pub enum WinFrame {
     None,
     RowsBetweenPrecedingCurrent(u32),
     RowsUnboundedFollowing(u32),
+    /// ROWS BETWEEN UNBOUNDED PRECEDING AND CURRENT ROW (differs from the default RANGE frame when the window order has ties)
+    RowsUnboundedCurrent,
 }
 
 #[derive(Clone, Debug, PartialEq)]
@@ -451,6 +453,7 @@ impl SelSpec {
                             WinFrame::None => String::new(),
                             WinFrame::RowsBetweenPrecedingCurrent(n) => format!(" ROWS BETWEEN {n} PRECEDING AND CURRENT ROW"),
                             WinFrame::RowsUnboundedFollowing(n) => format!(" ROWS BETWEEN UNBOUNDED PRECEDING AND {n} FOLLOWING"),
+                            WinFrame::RowsUnboundedCurrent => " ROWS BETWEEN UNBOUNDED PRECEDING AND CURRENT ROW".to_string(),
                         },
                         al
                     ),
@@ -524,7 +527,7 @@ impl SelSpec {
                 Item::Window(x, _, _, fr, _) => {
                     x.tags(d, out);
                     match fr {
-                        WinFrame::None => {}
+                        WinFrame::None | WinFrame::RowsUnboundedCurrent => {}
                         WinFrame::RowsBetweenPrecedingCurrent(n) | WinFrame::RowsUnboundedFollowing(n) => out.push(V::Int(*n as i64)),
                     }
                 }
@@ -731,6 +734,9 @@ pub fn apply_sel(s: &mut SelectStatement, op: &SelOp, d: Dialect) {
                 }
                 WinFrame::RowsUnboundedFollowing(n) => {
                     w.frame_between(FrameType::Rows, Frame::UnboundedPreceding, Frame::Following(*n));
+                }
+                WinFrame::RowsUnboundedCurrent => {
+                    w.frame_between(FrameType::Rows, Frame::UnboundedPreceding, Frame::CurrentRow);
                 }
             }
             s.expr_window_as(x.build(d), w, a(al));
